@@ -232,9 +232,7 @@ class Normalizer:
                         cf = cf * coef
                     coef = cf if n >= 0 else 1 / cf
                 else:
-                    k = ("num", str(z3.simplify(coef)))
-                    self.scalars[k] = ("num", z3.simplify(coef))
-                    scal = self.smerge(scal, ((k, z3.simplify(e)),))
+                    scal = self.smerge(scal, self.num_atoms(coef, e))
                     coef = z3.RealVal(1)
             return [Mono(coef, scal, atoms, r, cc)]
         if t.op == "inv":
@@ -296,6 +294,21 @@ class Normalizer:
                 if not atoms:
                     out.append(Mono(m.coef * z3.ToReal(m.rows.z), m.scal, [], ONE, ONE))
                     continue
+                best = None
+                for i in range(len(atoms)):
+                    cand = list(atoms[i:]) + list(atoms[:i])
+                    for r in self.nf_mono(Mono(z3.RealVal(1), (), cand, cand[0].rows, cand[-1].cols)):
+                        if best is None or len(r.atoms) < len(best[0].atoms):
+                            best = ([r], None)
+                            best = (r, i)
+                        break
+                red = best[0]
+                if len(red.atoms) < len(atoms):
+                    # the rotated product simplified: trace of the simplified product
+                    sub = T("tr", (_PolyTerm([Mono(red.coef, red.scal, red.atoms, red.rows, red.cols)]),), ONE, ONE, ("diag",))
+                    for y in self.flat(sub, False, False):
+                        out.append(Mono(m.coef * y.coef, self.smerge(m.scal, y.scal), [], ONE, ONE))
+                    continue
                 rot = self.canon_cyclic(atoms)
                 k = ("tr", tuple(a.key for a in rot) + tuple(str(a.exp) for a in rot if a.diag))
                 self.scalars[k] = ("tr", rot)
@@ -326,9 +339,7 @@ class Normalizer:
                 scal = tuple((k, z3.simplify(x * e)) for k, x in m.scal)
                 coef = z3.RealVal(1)
                 if not _is_num(m.coef, 1):
-                    k = ("num", str(z3.simplify(m.coef)))
-                    self.scalars[k] = ("num", z3.simplify(m.coef))
-                    scal = self.smerge(scal, ((k, z3.simplify(e)),))
+                    scal = self.smerge(scal, self.num_atoms(m.coef, e))
             return [Mono(coef, scal, [], ONE, ONE)]
         if t.op == "re":
             P = self.nf_poly(self.flat(t.args[0], h, c))
@@ -346,6 +357,25 @@ class Normalizer:
         raise Unsupported(f"normaliser: term op {t.op}")
 
     scalars = {}
+
+    def num_atoms(self, c, e):
+        """positive scalar c raised to the real power e as a tuple of canonical ('num', base) scalar atoms"""
+        c = z3.simplify(c)
+        if self.valid(c == 1):
+            return ()
+        if z3.is_app(c) and c.decl().kind() == z3.Z3_OP_DIV:
+            a, b = c.arg(0), c.arg(1)
+            return self.smerge(self.num_atoms(a, e), self.num_atoms(b, z3.simplify(-e)))
+        if z3.is_app(c) and c.decl().kind() == z3.Z3_OP_MUL:
+            out = ()
+            for i in range(c.num_args()):
+                out = self.smerge(out, self.num_atoms(c.arg(i), e))
+            return out
+        if z3.is_rational_value(c) and c.as_fraction() == 1:
+            return ()
+        k = ("num", str(c))
+        self.scalars[k] = ("num", c)
+        return ((k, z3.simplify(e)),)
 
     @staticmethod
     def _is_gram(atoms):
@@ -537,8 +567,10 @@ class Normalizer:
             base = (d.base[0], k.name)
         else:
             base = (("conj " if d.c else "") + f"{d.kind}:{d.base}", via or k.name)
-        return Atom("restr", base, k, k, diag=True, real=d.real, herm=d.herm, pos=d.pos, invt=d.invt,
-                    exp=d.exp)
+        a = Atom("restr", base, k, k, diag=True, real=d.real, herm=d.herm, pos=d.pos, invt=d.invt,
+                 unit=d.unit, exp=d.exp)
+        a.nn = d.nn
+        return a
 
     # ---------- polynomial normal form
     def nf_mono(self, m):
